@@ -298,6 +298,50 @@ func Mutations(root any, o MutOpts) []Mutation {
 				add("flipbool", pp, func(r any) any { return Set(r, pp, !x) })
 			}
 		case map[string]any:
+			if o.Structural {
+				// sibling arrays resized together: length checks that compare siblings with each other
+				// instead of with the expected structure are only visible to coordinated changes
+				var arrs []string
+				for _, k := range sortedKeys(x) {
+					if a, ok := x[k].([]any); ok && len(a) >= 1 {
+						arrs = append(arrs, k)
+					}
+				}
+				resize := func(names []string, grow bool) func(any) any {
+					return func(r any) any {
+						m, _ := Get(r, pp)
+						mm, ok := m.(map[string]any)
+						if !ok {
+							return r
+						}
+						for _, k := range names {
+							a, ok := mm[k].([]any)
+							if !ok || len(a) == 0 {
+								continue
+							}
+							if grow {
+								mm[k] = append(append([]any{}, a...), Clone(a[len(a)-1]))
+							} else {
+								mm[k] = append([]any{}, a[:len(a)-1]...)
+							}
+						}
+						return r
+					}
+				}
+				if len(arrs) >= 2 && len(arrs) <= 6 {
+					for i := 0; i < len(arrs); i++ {
+						for j := i + 1; j < len(arrs); j++ {
+							pair := []string{arrs[i], arrs[j]}
+							add("truncpair:"+arrs[i]+"+"+arrs[j], pp, resize(pair, false))
+							add("growpair:"+arrs[i]+"+"+arrs[j], pp, resize(pair, true))
+						}
+					}
+					if len(arrs) >= 3 {
+						add("truncall", pp, resize(arrs, false))
+						add("growall", pp, resize(arrs, true))
+					}
+				}
+			}
 			if isIntKeyMap(x) {
 				ks := sortedKeys(x)
 				for _, k := range ks {
